@@ -20,6 +20,7 @@ import (
 	"sort"
 	"strings"
 	"sync"
+	"sync/atomic"
 	"time"
 
 	"github.com/mmcloughlin/addchain/verifhook"
@@ -53,7 +54,7 @@ func run(c string) string {
 	s := string(lib.ParseBytes(f[1]))
 	switch f[0] {
 	case "calc":
-		return evalImpl(s)
+		return evalGuarded(s)
 	case "setstring":
 		v, ok := new(big.Int).SetString(s, 0)
 		if !ok {
@@ -63,6 +64,31 @@ func run(c string) string {
 	}
 	return "badcase"
 }
+
+// hangs counts evaluations that did not return in time. The goroutine of such a call cannot be
+// stopped, so after a few of them the generator stops emitting (see gen) and the run ends with
+// the failing rows it has.
+var hangs int32
+
+const hangAfter = 10 * time.Second
+
+// evalGuarded runs the evaluator with a watchdog: result "hang" after hangAfter. A panic in the
+// evaluator is reported as "panic <class>" here because it happens on another goroutine.
+func evalGuarded(s string) string {
+	ch := make(chan string, 1)
+	go func() { ch <- safeEval(s) }()
+	t := time.NewTimer(hangAfter)
+	defer t.Stop()
+	select {
+	case r := <-ch:
+		return r
+	case <-t.C:
+		atomic.AddInt32(&hangs, 1)
+		return "hang"
+	}
+}
+
+func tooManyHangs() bool { return atomic.LoadInt32(&hangs) >= 3 }
 
 func evalImpl(s string) string {
 	v, err := verifhook.CalcEval(s)
@@ -335,6 +361,9 @@ func judge(s, res string) string {
 	if strings.HasPrefix(res, "panic") {
 		return "evaluator panicked"
 	}
+	if res == "hang" {
+		return "evaluator did not return within " + hangAfter.String()
+	}
 	ts, st := olex(s)
 	switch st {
 	case unspecified:
@@ -400,7 +429,7 @@ func oracle(c, res string) string {
 			return msg
 		}
 		// evaluation is a function of the text
-		if again := run(c); again != res {
+		if again := run(c); again != res && res != "hang" {
 			return "second evaluation differs: " + clip(again)
 		}
 	case "setstring":
@@ -480,39 +509,75 @@ func seqCount(k int) uint64 {
 }
 
 // sweep evaluates every sequence with exactly k operators (no spaces) in-process against the
-// oracle and returns the expressions the oracle rejects (at most 50).
+// oracle and returns the expressions the oracle rejects (at most 50). A worker stuck in one
+// evaluation for longer than hangAfter is abandoned and its expression reported.
 func sweep(k int) (bad []string, skipped uint64) {
 	total := seqCount(k)
 	nw := runtime.NumCPU()
 	if nw > 16 {
 		nw = 16
 	}
-	var mu sync.Mutex
-	var wg sync.WaitGroup
+	type worker struct {
+		mu    sync.Mutex
+		cur   string
+		since time.Time
+		done  bool
+		bad   []string
+		skip  uint64
+	}
+	ws := make([]*worker, nw)
 	for w := 0; w < nw; w++ {
-		wg.Add(1)
-		go func(w int) {
-			defer wg.Done()
-			var mybad []string
-			var myskip uint64
+		ws[w] = &worker{since: time.Now()}
+		go func(w int, me *worker) {
 			for idx := uint64(w); idx < total; idx += uint64(nw) {
+				if tooManyHangs() {
+					break
+				}
 				s := strings.Join(seqTokens(k, idx), "")
 				if tooBig(s) {
-					myskip++
+					me.skip++
 					continue
 				}
+				me.mu.Lock()
+				me.cur, me.since = s, time.Now()
+				me.mu.Unlock()
 				res := safeEval(s)
-				if judge(s, res) != "" && len(mybad) < 50 {
-					mybad = append(mybad, s)
+				if judge(s, res) != "" {
+					me.mu.Lock()
+					if len(me.bad) < 50 {
+						me.bad = append(me.bad, s)
+					}
+					me.mu.Unlock()
 				}
 			}
-			mu.Lock()
-			bad = append(bad, mybad...)
-			skipped += myskip
-			mu.Unlock()
-		}(w)
+			me.mu.Lock()
+			me.done = true
+			me.mu.Unlock()
+		}(w, ws[w])
 	}
-	wg.Wait()
+	for pending := nw; pending > 0; {
+		time.Sleep(50 * time.Millisecond)
+		pending = 0
+		for _, me := range ws {
+			me.mu.Lock()
+			if !me.done {
+				if time.Since(me.since) > hangAfter {
+					me.done = true // abandoned: its goroutine never returns
+					me.bad = append(me.bad, me.cur)
+					atomic.AddInt32(&hangs, 1)
+				} else {
+					pending++
+				}
+			}
+			me.mu.Unlock()
+		}
+	}
+	for _, me := range ws {
+		me.mu.Lock()
+		bad = append(bad, me.bad...)
+		skipped += me.skip
+		me.mu.Unlock()
+	}
 	sort.Strings(bad)
 	if len(bad) > 50 {
 		bad = bad[:50]
@@ -630,7 +695,11 @@ var malformedFixed = []string{
 
 func gen(tier string, r *lib.Rand, emit func(string)) {
 	thorough := tier == "thorough"
-	e := func(s string) { emit(calcCase(s)) }
+	e := func(s string) {
+		if !tooManyHangs() {
+			emit(calcCase(s))
+		}
+	}
 	t0 := time.Now()
 	progress := func(what string) {
 		fmt.Fprintf(os.Stderr, "c13: %-28s done at %6.1fs\n", what, time.Since(t0).Seconds())
@@ -776,7 +845,11 @@ func gen(tier string, r *lib.Rand, emit func(string)) {
 
 	progress("mutations")
 	// (d) math/big SetString(s, 0) on its own
-	es := func(s string) { emit("setstring " + lib.Bytes([]byte(s))) }
+	es := func(s string) {
+		if !tooManyHangs() {
+			emit("setstring " + lib.Bytes([]byte(s)))
+		}
+	}
 	for _, s := range malformedFixed {
 		es(s)
 	}
